@@ -36,6 +36,7 @@ type fcase struct {
 	OtherIndex  bool     `json:"proposal_built_for_another_proposer_index,omitempty"`
 	AuctionSlow bool     `json:"auction_answers_after_2300ms,omitempty"`
 	Gated       bool     `json:"relays_answer_at_the_same_instant,omitempty"`
+	Unhashable  bool     `json:"block_body_cannot_be_hashed,omitempty"`
 	Graffiti    string   `json:"graffiti"`                   // ok | error | absent | timeout
 	Auction     string   `json:"auction"`                    // none | error | no-winner | winner
 	Relays      []string `json:"relay_unblinding,omitempty"` // block | 400 | transient | error | slow | hang | empty
@@ -273,6 +274,7 @@ func genCase(r *rand.Rand) *fcase {
 	}
 	r2 := rand.New(rand.NewSource(r.Int63()))
 	fc.OtherIndex = r2.Intn(10) == 0
+	fc.Unhashable = !fc.Blinded && v >= spec.DataVersionBellatrix && r2.Intn(25) == 0
 	fc.AuctionSlow = fc.Auction != "none" && r2.Intn(40) == 0
 	if fc.Auction == "winner" || fc.Auction == "no-winner" {
 		n := 1 + r.Intn(4)
@@ -407,6 +409,22 @@ func runCase(c *harness.Ctx, id string, fc *fcase, uniq int) {
 		pindex += phase0.ValidatorIndex(1 + uniq%5) // the node answers with a block built for another proposer
 	}
 	w.proposal = harness.NewProposal(versionOf(fc.Version), fc.Blinded, pslot, pindex, uint64(uniq+1), graffiti)
+	if fc.Unhashable {
+		// a body holding more proposer slashings than the list may hold: its root cannot be computed
+		sl := make([]*phase0.ProposerSlashing, 17)
+		for i := range sl {
+			h := &phase0.SignedBeaconBlockHeader{Message: &phase0.BeaconBlockHeader{}}
+			sl[i] = &phase0.ProposerSlashing{SignedHeader1: h, SignedHeader2: h}
+		}
+		switch {
+		case w.proposal.Bellatrix != nil:
+			w.proposal.Bellatrix.Body.ProposerSlashings = sl
+		case w.proposal.Capella != nil:
+			w.proposal.Capella.Body.ProposerSlashings = sl
+		case w.proposal.Deneb != nil:
+			w.proposal.Deneb.Block.Body.ProposerSlashings = sl
+		}
+	}
 
 	detail := func() map[string]any {
 		w.mu.Lock()
@@ -468,7 +486,7 @@ func runCase(c *harness.Ctx, id string, fc *fcase, uniq int) {
 			canUnblind = true
 		}
 	}
-	expectSign := !fc.OtherSlot
+	expectSign := !fc.OtherSlot && !fc.Unhashable // a block whose roots cannot be computed cannot be signed
 	expectSubmit := expectSign && !fc.SignErr && (!fc.Blinded || canUnblind)
 	returned := false
 	select {
@@ -523,6 +541,15 @@ func runCase(c *harness.Ctx, id string, fc *fcase, uniq int) {
 		fail("proposal-request-wrong", fmt.Sprintf("proposal requested for slot %d graffiti %q, want slot %d graffiti %q and the duty's reveal", po.Slot, strings.TrimRight(string(po.Graffiti[:]), "\x00"), w.dutySlot, strings.TrimRight(string(wantG[:]), "\x00")))
 	}
 	// signing
+	if !expectSign && fc.Unhashable && !fc.OtherSlot {
+		if len(blockReqs) != 0 {
+			fail("signed-block-without-roots", "a block signature was requested for a block whose body root cannot be computed (not over that block's own roots, then)")
+		}
+		if len(submitted) != 0 {
+			fail("submitted-block-without-roots", "a block whose body root cannot be computed was submitted")
+		}
+		return
+	}
 	if !expectSign {
 		if len(blockReqs) != 0 {
 			fail("signed-block-of-other-slot", fmt.Sprintf("a block signature was requested although the proposal is for slot %d and the duty for slot %d", pslot, w.dutySlot))
@@ -686,7 +713,7 @@ func main() {
 	harness.Main(&harness.Spec{
 		Property:     "C05",
 		Level:        "exploration",
-		Rule:         "proposal duties over versions phase0..deneb x full/blinded x {proposal for the duty slot, for another slot} x graffiti {ok, error, timeout of the source, no provider} x auction {no auctioneer, error, result without winner, winner with a random listed subset} x per-relay unblinding {block, 400, transient error then block, error, slow, hang, answer without block} x {submission error, block signing error, unblind-from-all} x {block built for the duty validator, for another proposer index} x {auction answers at once, after 2.3 s}; nodes and signer refuse a request whose context has ended; plus blinded proposals whose 3-100 relays all answer at the same instant, one of them with the block; Prepare then Propose on the real proposer with the real signer. distinct = the whole assignment",
+		Rule:         "proposal duties over versions phase0..deneb x full/blinded x {proposal for the duty slot, for another slot} x graffiti {ok, error, timeout of the source, no provider} x auction {no auctioneer, error, result without winner, winner with a random listed subset} x per-relay unblinding {block, 400, transient error then block, error, slow, hang, answer without block} x {submission error, block signing error, unblind-from-all} x {block built for the duty validator, for another proposer index} x {body whose root cannot be computed} x {auction answers at once, after 2.3 s}; nodes and signer refuse a request whose context has ended; plus blinded proposals whose 3-100 relays all answer at the same instant, one of them with the block; Prepare then Propose on the real proposer with the real signer. distinct = the whole assignment",
 		Batches:      func(string) int { return 2 },
 		Parallel:     2,
 		Run:          run,
